@@ -171,6 +171,8 @@ class Live(JupyterMixin, RenderHook):
 
             if self.transient:
                 self.console.control(self._live_render.restore_cursor())
+            # the last frame is now permanent output (or erased): a later start() begins afresh
+            self._live_render._shape = None
             if self.ipy_widget is not None:  # pragma: no cover
                 if self.transient:
                     self.ipy_widget.close()
